@@ -21,6 +21,7 @@
 #include <kernel/space/lagrange1/element.hpp>
 #include <kernel/trafo/standard/mapping.hpp>
 
+#include <deque>
 #include <map>
 #include <set>
 #include <stdexcept>
@@ -310,43 +311,60 @@ namespace
       }
     }
 
+    // knob names of the second round on the same assembler object get a prefix (a knob may be drawn once per run)
+    std::string kp;
+    std::deque<std::string> kpool;
+    const char* K(const char* n) { kpool.push_back(kp + n); return kpool.back().c_str(); }
+
     void body()
+    {
+      TrafoType trafo(mesh);
+      SpaceType space(trafo);
+      DA<TrafoType> da(trafo);
+      // history: the same assembler object is cleared and compiled again for another cell subset, strategy and worker count
+      const int rounds = 1 + int(sim::cfg_weighted("rounds", {3, 1}));
+      for(int round = 0; round < rounds; ++round)
+      {
+        kp = (round == 0 ? "" : "r2.");
+        selected.clear();
+        if(round > 0) { da.clear(); sim::probe("assembler_cleared_and_recompiled"); }
+        one_round(trafo, space, da);
+      }
+    }
+
+    void one_round(TrafoType& trafo, SpaceType& space, DA<TrafoType>& da)
     {
       // selection of cells
       const Index ncells = mesh.get_num_elements();
       {
         const auto& idx = mesh.template get_index_set<dim, 0>();
         cells_at_vertex.assign(mesh.get_num_entities(0), {});
-        int selmode = int(sim::cfg_weighted("select", {5, 3, 1, 1, 1}));
+        int selmode = int(sim::cfg_weighted(K("select"), {5, 3, 1, 1, 1}));
         std::vector<char> mask(ncells, 0);
         switch(selmode)
         {
         case 0: for(Index c = 0; c < ncells; ++c) mask[c] = 1; break;
-        case 1: { int pm = int(sim::cfg_int("sel_pm", 100, 900)); uint64_t s = uint64_t(sim::cfg_int("sel_seed", 0, 1 << 20));
+        case 1: { int pm = int(sim::cfg_int(K("sel_pm"), 100, 900)); uint64_t s = uint64_t(sim::cfg_int(K("sel_seed"), 0, 1 << 20));
                   for(Index c = 0; c < ncells; ++c) { s = s * 6364136223846793005ull + 1442695040888963407ull; mask[c] = ((s >> 33) % 1000) < uint64_t(pm); } } break;
-        case 2: mask[Index(sim::cfg_int("sel_a", 0, 1 << 20)) % ncells] = 1; break;
-        case 3: mask[Index(sim::cfg_int("sel_a", 0, 1 << 20)) % ncells] = 1; mask[Index(sim::cfg_int("sel_b", 0, 1 << 20)) % ncells] = 1; break;
-        case 4: { Index n = 1 + Index(sim::cfg_int("sel_n", 0, 15)); Index off = Index(sim::cfg_int("sel_a", 0, 1 << 20)) % ncells;
+        case 2: mask[Index(sim::cfg_int(K("sel_a"), 0, 1 << 20)) % ncells] = 1; break;
+        case 3: mask[Index(sim::cfg_int(K("sel_a"), 0, 1 << 20)) % ncells] = 1; mask[Index(sim::cfg_int(K("sel_b"), 0, 1 << 20)) % ncells] = 1; break;
+        case 4: { Index n = 1 + Index(sim::cfg_int(K("sel_n"), 0, 15)); Index off = Index(sim::cfg_int(K("sel_a"), 0, 1 << 20)) % ncells;
                   for(Index c = 0; c < n && c < ncells; ++c) mask[(off + c) % ncells] = 1; } break;
         }
         for(Index c = 0; c < ncells; ++c) if(mask[c]) { selected.push_back(c); for(int k = 0; k < idx.num_indices; ++k) cells_at_vertex[idx(c, k)].push_back(c); }
         if(selected.empty()) { selected.push_back(0); for(int k = 0; k < idx.num_indices; ++k) cells_at_vertex[idx(0, k)].push_back(0); }
       }
 
-      TrafoType trafo(mesh);
-      SpaceType space(trafo);
-
       static const Assembly::ThreadingStrategy strats[5] = {Assembly::ThreadingStrategy::automatic, Assembly::ThreadingStrategy::single,
         Assembly::ThreadingStrategy::layered, Assembly::ThreadingStrategy::layered_sorted, Assembly::ThreadingStrategy::colored};
-      int si = int(sim::cfg_weighted("strat", {2, 1, 4, 3, 4}));
+      int si = int(sim::cfg_weighted(K("strat"), {2, 1, 4, 3, 4}));
       static const int wc[10] = {0, 1, 2, 2, 3, 3, 4, 5, 8, 14};
-      std::size_t maxw = std::size_t(wc[sim::cfg_int("workers_idx", 0, 9)]);
-      if(sim::cfg_int("workers_gt_cells", 0, 9) == 0) maxw = std::min<std::size_t>(selected.size() + 3u, 16u);
+      std::size_t maxw = std::size_t(wc[sim::cfg_int(K("workers_idx"), 0, 9)]);
+      if(sim::cfg_int(K("workers_gt_cells"), 0, 9) == 0) maxw = std::min<std::size_t>(selected.size() + 3u, 16u);
 
-      DA<TrafoType> da(trafo);
       da.set_threading_strategy(strats[si]);
       da.set_max_worker_threads(maxw);
-      if(selected.size() == ncells && sim::cfg_int("compile_all", 0, 1) == 1) da.compile_all_elements();
+      if(selected.size() == ncells && sim::cfg_int(K("compile_all"), 0, 1) == 1) da.compile_all_elements();
       else { for(Index c : selected) da.add_element(c); da.compile(); }
       check_static(da, strats[si], maxw);
 
@@ -355,7 +373,7 @@ namespace
       for(Index c : selected) ref.add_element(c);
       ref.compile();
 
-      int njobs = int(sim::cfg_int("jobs", 1, 3));
+      int njobs = int(sim::cfg_int(K("jobs"), 1, 3));
       std::vector<bool> failed, has_scatter;
       Recorder rec;
       REC = &rec;
@@ -363,7 +381,7 @@ namespace
       for(int j = 0; j < njobs; ++j)
       {
         rec.job = j;
-        int kind = int(sim::cfg_weighted(("job" + std::to_string(j)).c_str(), {4, 2, 2, 3, 3, 2, 2}));
+        int kind = int(sim::cfg_weighted(K(("job" + std::to_string(j)).c_str()), {4, 2, 2, 3, 3, 2, 2}));
         bool fail_job = false;
         bool scat = true;
         long nsel = long(selected.size());
@@ -447,8 +465,8 @@ namespace
           {
             fail_job = true;
             ProbeJob<Mesh_, true, true> job(mesh);
-            bool in_ctor = sim::cfg_int(("throw_in_ctor" + std::to_string(j)).c_str(), 0, 3) == 0;
-            long tc = in_ctor ? -1 : long(selected[size_t(sim::cfg_int(("throw_sel" + std::to_string(j)).c_str(), 0, 1 << 20)) % size_t(nsel)]);
+            bool in_ctor = sim::cfg_int(K(("throw_in_ctor" + std::to_string(j)).c_str()), 0, 3) == 0;
+            long tc = in_ctor ? -1 : long(selected[size_t(sim::cfg_int(K(("throw_sel" + std::to_string(j)).c_str()), 0, 1 << 20)) % size_t(nsel)]);
             Wrap<ProbeJob<Mesh_, true, true>> w(job, tc, in_ctor);
             da.assemble(w);
             sim::probe("failing_job_terminated");
